@@ -722,6 +722,25 @@ func runC18(r *Run) {
 					} else if o != first {
 						r.Violate("option-order", strings.Join(names, ",")+"|"+p.e, c, "this order gives "+o+", another order of the same options "+first)
 					}
+					// a nil Option (the optional-option idiom: `var o Option; if cond { o = With...() }`) is skipped wherever it stands
+					if len(specs) > 0 {
+						at := (pn + pi + si) % (len(specs) + 1)
+						var withNil []bexpr.Option
+						for k2, sp := range specs {
+							if k2 == at {
+								withNil = append(withNil, nil)
+							}
+							withNil = append(withNil, sp.go_())
+						}
+						if at == len(specs) {
+							withNil = append(withNil, nil)
+						}
+						if on := exprObs(p.e, p.d, withNil...); on != o {
+							c["nil_option_at"] = at
+							r.Violate("nil-option-not-skipped", fmt.Sprint(at)+"|"+strings.Join(names, ",")+"|"+p.e, c, fmt.Sprintf("with a nil Option at position %d: %s, without: %s", at, on, o))
+						}
+						r.Evaluations++
+					}
 					r.Model(fmt.Sprintf("(evaluate %s %s %s %s)", hx(p.e), optsCmd(sxs), sIface(p.d), reTable(pats, p.d, st.unk)), o, c)
 				}
 			}
@@ -871,6 +890,8 @@ func runC13(r *Run) {
 	c13RepeatStability(r, n/2)
 	c13PanickingHooksAndCrowds(r)
 	c13ExpressionText(r)
+	c13TiedKeyOrders(r)
+	c13JSONNumbers(r)
 	c17FirstError(r)
 	sameTypeDifferentShape(r, "history-dependent")
 	// filters
@@ -953,6 +974,7 @@ func runC12(r *Run) {
 			return []bexpr.Option{bexpr.WithUnknownValue(json.Number("1")), bexpr.WithTagName("bexpr")}
 		}},
 		// option lists of 3 and 5-7 entries (slices that grow by doubling keep a spare slot at these lengths), local variables among them
+		{"tag-empty", func() []bexpr.Option { return []bexpr.Option{bexpr.WithTagName("")} }},
 		{"locals-3", func() []bexpr.Option {
 			return []bexpr.Option{bexpr.WithLocalVariable("lv1", nil, 1), bexpr.WithLocalVariable("lv2", []string{"A"}, nil), bexpr.WithLocalVariable("lv3", nil, "x")}
 		}},
